@@ -247,11 +247,11 @@ CLAIMED = {
         'number stays in {0,1}, and only Type4TagCommandError escapes, for every command length, frame size and retry '
         'budget (all loops under invariants). Type4ATag activation: for every standard-conformant ATS (any subset of '
         'TA/TB/TC, historical bytes, TL only) miu + 3 equals min(FSC(FSCI), device limit), FWT follows FWI of TB(1) or '
-        'the default, nothing is raised.',
+        'the default, nothing is raised; Type4BTag activation likewise from the protocol info of SENSB_RES.',
    design_ref='DESIGN.md Part A sections A.4 (this property), A.8',
    note='NOT decided: at-most-once execution and complete response under fault scripts (needs a card role model '
         'over histories; the loops are verified only for safety), termination of the WTX / retransmit-after-ACK '
-        'loops against an adversarial card (no variant exists; reported as a note), retry counting, Type4BTag.',
+        'loops against an adversarial card (no variant exists; reported as a note, known findings under C08), retry counting.',
    technique='contract-based deductive verification: interface preconditions + raises-clauses (pyvc)'),
  'C01': dict(
    category='proof',
